@@ -92,9 +92,9 @@ def c10Step (cfg : Cfg) (ws : List String) : String :=
     match rpc with
     | "read" =>
       match a with
-      | ok :: off :: len :: pr => match mkPrices pr with
+      | ok :: off :: len :: wc :: pr => match mkPrices pr with
         | some p => fmtRes (fun (o : List Nat × Usage) => s!"{o.1.length} cost={o.2.renterCost}")
-            (rpcRead cfg P p (ok != 0) ⟨1, off, len⟩ msgs)
+            (rpcRead cfg P p (ok != 0) ⟨1, off, len, if wc == 0 then none else some (wc - 1)⟩ msgs)
         | none => "bad-op"
       | _ => "bad-op"
     | "write" =>
